@@ -171,6 +171,12 @@ class Tx(ast.NodeTransformer):
         node.value = self.visit(node.value)
         self_targets = [t for t in node.targets if isinstance(t, ast.Subscript) and _is_self(t.value)]
         if not self_targets:
+            # `other[key] = value` where `other` may be another cache of the transformed class (copy() fills a new cache):
+            # item assignment on such an object must run that object's coroutine; anything else is a plain assignment
+            if (len(node.targets) == 1 and isinstance(node.targets[0], ast.Subscript) and isinstance(node.targets[0].value, ast.Name)):
+                t = node.targets[0]
+                call = ast.Call(func=ast.Name('_tx_setitem', ast.Load()), args=[ast.Name(t.value.id, ast.Load()), t.slice, node.value], keywords=[])
+                return ast.Expr(value=ast.YieldFrom(value=call))
             node.targets = [self.visit(t) for t in node.targets]
             return node
         tmp = ast.Name('_tx_tmp', ast.Store())
@@ -250,6 +256,14 @@ def transform(module, drop_lock_in=()):
     ns = dict(vars(module))
     ns['RLock'] = ModelLock
     ns['Lock'] = ModelLock
+
+    def _tx_setitem(obj, key, value):
+        f = getattr(type(obj), '__setitem__', None)
+        if f is not None and inspect.isgeneratorfunction(f):
+            yield from f(obj, key, value)
+        else:
+            obj[key] = value
+    ns['_tx_setitem'] = _tx_setitem
     exec(compile(newmod, '<coro:%s>' % module.__name__, 'exec'), ns)
     return ns['LRI'], ns['LRU'], ast.unparse(newmod)
 
